@@ -303,6 +303,31 @@ pub fn run_c18(p: &Params) -> Outcome {
         let case = json!({"gen": gen3, "case": i, "seed": seed});
         check_one_on(&v, vec0, &d, out, &case);
     }));
+    // scale: targets and payloads of thousands to tens of thousands of values (imbl's tree gets a third level above
+    // 4096 items, a fourth above 262144 is out of reach here), around the powers of 64 and of 2
+    let gen4 = "c18-rand-giant";
+    if !p.san() {
+        out.merge(p.cases(gen4, p.n(60, 1_500), |i, out| {
+            let mut rng = Rng::new(mix(seed, mix(hash_of(&gen4), i)));
+            let sizes = [1023usize, 1024, 1025, 4095, 4096, 4097, 8192, 16320, 16383, 16384, 16385, 20_000, 32_768, 40_000, 65_536, 70_000];
+            let len = if rng.chance(1, 2) { *rng.pick(&sizes) } else { rng.below(3000) };
+            let plen = if rng.chance(2, 3) { *rng.pick(&sizes) } else { rng.below(3000) };
+            let v: Vec<u32> = (0..len as u32).map(|x| x % 50).collect();
+            let payload: Vec<u32> = (0..plen as u32).map(|x| (x * 7) % 50).collect();
+            let val = rng.below(50) as u32;
+            let idx = if rng.chance(1, 6) { len + rng.below(3) } else { rng.below(len + 1) };
+            let d = match rng.below(8) {
+                0..=2 => VectorDiff::Append { values: payload.iter().copied().collect() },
+                3 | 4 => VectorDiff::Reset { values: payload.iter().copied().collect() },
+                5 => VectorDiff::Insert { index: idx, value: val },
+                6 => VectorDiff::Remove { index: idx },
+                _ => VectorDiff::Truncate { length: idx },
+            };
+            let case = json!({"gen": gen4, "case": i, "seed": seed});
+            check_one(&v, &d, out, &case);
+            out.ev.count("cases_with_thousands_of_values");
+        }));
+    }
     out
 }
 
